@@ -392,6 +392,27 @@ pub fn sparse_history(rng: &mut Rng, n: usize, atts: Vec<(usize, usize)>, recipe
 
 /// Large frameworks (replay-only / metamorphic): sparse random graphs made of many small blocks.
 pub fn gen_large(rng: &mut Rng, n: usize) -> GenAf {
+    if rng.chance(1, 4) {
+        // well-founded (acyclic) framework in a random id order: the grounded extension is stable, hence the only
+        // extension of every semantics, and every status at any size is decided by it (polynomial oracle)
+        let mut perm: Vec<usize> = (0..n).collect();
+        rng.shuffle(&mut perm);
+        let mut atts = Vec::new();
+        let deg = rng.range(1, 3);
+        let span = [3usize, 10, 40][rng.below(3)];
+        for i in 0..n {
+            for _ in 0..deg {
+                if i + 1 < n && rng.chance(2, 3) {
+                    let j = i + 1 + rng.below(span.min(n - i - 1));
+                    atts.push((perm[i], perm[j]));
+                }
+            }
+        }
+        atts.sort();
+        atts.dedup();
+        rng.shuffle(&mut atts);
+        return GenAf { build: Build::Iccma(n, atts), recipe: "large_wellfounded" };
+    }
     let mut atts = Vec::new();
     let avg_deg = [1, 2, 3][rng.below(3)];
     let block = [4usize, 8, 16, 400][rng.below(4)];
